@@ -7,7 +7,9 @@
      CSPEC <wK|new> <hex member>...               -> bit-level concatenation spec: OK <hex> | NONE
      SWEEP <api> <init> <restore> <caps> <b0> <slices|-> <cont,cont,..> <pre tasks joined by +|->
         for b1 in 0..255, for each continuation: member = b0 b1 cont, script = pre F chunks X
-        -> n=<cases> hash=<over the answers> bad=<indices with PANIC/LOOP> spec=<failing c16_call_ok> inv=<..> *)
+        -> n=<cases> hash=<over the answers> bad=<indices with PANIC/LOOP> spec=<failing c16_call_ok> inv=<..>
+     TSWEEP <api> <init> <restore> <caps> <t0> <slices|-> <head,head,..> <post tasks joined by +|-> <pre tasks|->
+        for t1 in 0..255, for each head: member = head t0 t1 (t0 t1 = the held-back tail), script = pre F chunks post X *)
 let ns_of_hex s = if s = "-" then [] else Stdlib.List.map n_of_int (hex_to_ints s)
 let hex_of_ns l = if l = [] then "-" else ints_to_hex (Stdlib.List.map int_of_n l)
 let ints_of_csv s = if s = "-" || s = "" then [] else
@@ -98,20 +100,20 @@ let chunks_of (m : int list) (sizes : int list) : int list list =
      | s :: st -> let (a, b) = take (max 1 s) l in a :: go b st) in
   go m sizes
 let fuel_for ntasks total ncaps = (ncaps + 2) * (3 * total + 16 * ntasks + 64)
-let sweep api init restore caps b0 slices conts pre =
-  let conts = Stdlib.List.map (fun c -> if c = "-" then [] else hex_to_ints c) (Stdlib.String.split_on_char ',' conts) in
-  let pre = if pre = "-" then [] else Stdlib.String.split_on_char '+' pre in
-  let pre_total = Stdlib.List.fold_left (fun a t -> if Stdlib.String.length t > 1 && t.[0] = 'C' && t <> "C-" then a + (Stdlib.String.length t - 1) / 2 else a) 0 pre in
+let task_list s = if s = "-" then [] else Stdlib.String.split_on_char '+' s
+let task_bytes ts = Stdlib.List.fold_left (fun a t -> if Stdlib.String.length t > 1 && t.[0] = 'C' && t <> "C-" then a + (Stdlib.String.length t - 1) / 2 else a) 0 ts
+(* for b1 in 0..255, for every member (gen b1): script = pre F chunks(member) post X *)
+let sweep_core api init restore caps slices pre post (gen : int -> int list list) =
+  let extra = task_bytes pre + task_bytes post in
   let capstr = if Stdlib.String.length caps > 2 && Stdlib.String.sub caps 0 2 = "p:" then Stdlib.String.sub caps 2 (Stdlib.String.length caps - 2) else caps in
   let ncaps = Stdlib.List.length (ints_of_csv capstr) in
   let slices = ints_of_csv slices in
   let h = ref 0 and n = ref 0 and bad = ref [] and spec = ref [] and inv = ref [] in
   for b1 = 0 to 255 do
-    Stdlib.List.iter (fun cont ->
-      let m = b0 :: b1 :: cont in
+    Stdlib.List.iter (fun m ->
       let cs = if slices = [] then [m] else chunks_of m slices in
-      let tasks = pre @ ["F"] @ Stdlib.List.map (fun c -> "C" ^ ints_to_hex c) cs @ ["X"] in
-      let fuel = fuel_for (Stdlib.List.length tasks) (pre_total + Stdlib.List.length m) ncaps in
+      let tasks = pre @ ["F"] @ Stdlib.List.map (fun c -> "C" ^ ints_to_hex c) cs @ post @ ["X"] in
+      let fuel = fuel_for (Stdlib.List.length tasks) (extra + Stdlib.List.length m) ncaps in
       let ans = run_req api init restore caps (string_of_int fuel) tasks in
       h := hash_str !h ans;
       let fin = field ans "final" in
@@ -120,10 +122,18 @@ let sweep api init restore caps b0 slices conts pre =
        | "OK" -> ()
        | v when Stdlib.String.length v >= 3 && Stdlib.String.sub v 0 3 = "INV" -> inv := !n :: !inv
        | _ -> spec := !n :: !spec);
-      incr n) conts
+      incr n) (gen b1)
   done;
   let show l = if l = [] then "-" else Stdlib.String.concat "," (Stdlib.List.rev_map string_of_int l) in
   Printf.sprintf "n=%d hash=%d bad=%s spec=%s inv=%s" !n !h (show !bad) (show !spec) (show !inv)
+let hex_list s = Stdlib.List.map (fun c -> if c = "-" then [] else hex_to_ints c) (Stdlib.String.split_on_char ',' s)
+let sweep api init restore caps b0 slices conts pre =
+  let conts = hex_list conts in
+  sweep_core api init restore caps slices (task_list pre) [] (fun b1 -> Stdlib.List.map (fun c -> b0 :: b1 :: c) conts)
+(* TSWEEP: member = head t0 t1, followed by the post tasks *)
+let tsweep api init restore caps t0 slices heads post pre =
+  let heads = hex_list heads in
+  sweep_core api init restore caps slices (task_list pre) (task_list post) (fun t1 -> Stdlib.List.map (fun hd -> hd @ [t0; t1]) heads)
 
 let () = iter_lines (fun line ->
   match split_ws line with
@@ -138,6 +148,8 @@ let () = iter_lines (fun line ->
     print_endline (Printf.sprintf "%s %s" m (show (rfc_wbits (n_of_int (b0 + 256 * b1)))))
   | ["SWEEP"; api; init; restore; caps; b0; slices; conts; pre] ->
     print_endline (sweep api init restore caps (int_of_string b0) slices conts pre)
+  | ["TSWEEP"; api; init; restore; caps; t0; slices; heads; post; pre] ->
+    print_endline (tsweep api init restore caps (int_of_string t0) slices heads post pre)
   | "CSPEC" :: init :: members ->
     let ov = if init = "new" then None else Some (n_of_int (int_of_string (Stdlib.String.sub init 1 (Stdlib.String.length init - 1)))) in
     (match concat_spec ov (Stdlib.List.map ns_of_hex members) with
